@@ -409,6 +409,12 @@ func (c *stepCtx) stepDecode(k int, st map[string]interface{}) string {
 		return head + panicObs(pan) + "}"
 	}
 	if err != nil {
+		c.objs[k] = dest // the partially filled destination: a caller may well decode into it again
+		if c.ins != nil {
+			c.ins[k] = in
+			c.objTy[k] = ty
+			c.snaps[k] = valueDigestNoNocopy(ty, dest)
+		}
 		return head + fmt.Sprintf(`"out":"err","n":%d,`, n) + errObs(err) + "}"
 	}
 	c.objs[k] = dest
